@@ -398,9 +398,27 @@ pub fn build_rdata(code: u16, f: &[FVal]) -> Option<RData<'static>> {
         TYPE::MINFO => RData::MINFO(MINFO { rmailbox: gn(f, 0)?, emailbox: gn(f, 1)? }),
         TYPE::MX => RData::MX(MX { preference: int!(0, u16), exchange: gn(f, 1)? }),
         TYPE::TXT => {
+            // the same value reached along different public construction paths, chosen by the content: in-place adds, the
+            // builder methods, and owned copies / clones taken before, between and after the adds
+            let strings = gl(f, 0)?;
+            let path = strings.iter().map(|(_, s)| s.len()).sum::<usize>() % 5;
             let mut t = TXT::new();
-            for (_, s) in gl(f, 0)? {
-                t.add_char_string(CharacterString::new(&s).ok()?.into_owned());
+            if path == 1 {
+                t = t.into_owned();
+            }
+            for (_, s) in strings {
+                let cs = CharacterString::new(&s).ok()?.into_owned();
+                if path == 2 {
+                    t = t.with_char_string(cs);
+                } else {
+                    t.add_char_string(cs);
+                }
+                if path == 3 {
+                    t = t.into_owned();
+                }
+                if path == 4 {
+                    t = t.clone();
+                }
             }
             RData::TXT(t)
         }
@@ -563,6 +581,12 @@ fn build_svcb(f: &[FVal]) -> Option<SVCB<'static>> {
             s.set_param(key, vec![0x55u8; (v.len() + 3) % 7]).ok()?;
         }
         s.set_param(key, v).ok()?;
+        if pr % 3 == 1 {
+            s = s.into_owned();
+        }
+        if pr % 3 == 2 {
+            s = s.clone();
+        }
     }
     Some(s)
 }
